@@ -1,8 +1,8 @@
 import QV.Model.Compiler
 import QV.Proofs.Circuit
 import QV.Proofs.CompilerInv
--- PORT-PENDING import QV.Proofs.CompilerSem   (semantic proofs not yet ported to the repaired compiler model,
--- PORT-PENDING import QV.Proofs.CompilerSem2   see docs/notes/PORT-PENDING.md)
+import QV.Proofs.CompilerSem
+-- PORT-PENDING import QV.Proofs.CompilerSem2   (not yet ported to the repaired compiler model, see docs/notes/PORT-PENDING.md)
 /-!
 # C02 – The circuit computes the function's boolean expressions
 
@@ -32,10 +32,14 @@ is (partial):
   return bit is mapped to a qubit"), `compile_inputs_first` (arguments on qubits `0..n-1`),
   `compile_bookkeeping`; with the corollaries `compile_remove_identities_preserves` and
   `compile_reverse_replay_undoes`.  They say nothing about the *values* on the qubits.
-* **semantic fragment theorems** (`C02_fragment_partial`, … – values on the qubits on decidable
-  classes of programs): proved for the model of the unrepaired compiler, **parked** in
-  `PORT-PENDING` blocks below until `QV/Proofs/CompilerSem*.lean` are ported to the repaired
-  model (`docs/notes/PORT-PENDING.md`).
+* a **semantic fragment theorem** `C02_fragment_partial` (ported to the repaired model): on the
+  decidable class `inFragment` (one definition `r = e`, `e` a Not/And/Or/Xor expression over the
+  arguments in which no compound sub-expression occurs twice) every successful run of `compile`,
+  with and without final uncomputation, for every admissible ancilla-choice sequence, is `Correct`.
+* the widened fragment theorems (`C02_fragment_consts`, `C02_fragment_named`, `C02_fragment_multi`,
+  `C02_free_zero_invariant`) were proved for the model of the unrepaired compiler and are **parked**
+  in `PORT-PENDING` blocks below until `QV/Proofs/CompilerSem2*.lean` are ported
+  (`docs/notes/PORT-PENDING.md`).
 -/
 namespace QV.C02
 open QV QV.Compiler
@@ -270,17 +274,18 @@ example : inputsFresh ["a", "b"] [("__t", .xor [.sym "a", .sym "b"]), ("_ret", .
 
 /-! ## Semantic fragment theorem (values on the qubits)
 
-(Parked – statements about the model of the unrepaired compiler, see the head of the file.)
-`C02_statement` was false for the unrepaired compiler, but it held on a decidable class of programs:
+`C02_statement` is not proved in general, but it holds on a decidable class of programs:
 a single definition `r = e` whose expression is built from the argument symbols with
 `Not` / `And` / `Or` / `Xor` of any arity (symbols may repeat) and in which no compound
 sub-expression occurs twice.  There every lookup in the expression cache misses, the free set is
 empty while `e` is compiled (every ancilla is a new qubit) and the inline `uncompute` after the
-statement only replays gates whose target is a marked ancilla, never the result qubit.
+statement only replays gates whose target is a marked ancilla, never the result qubit (the defined
+name is the requested return bit, or there is no final uncomputation, so the ancillas are released
+right after the statement; `Or` with more than two distinct argument qubits is the fold of binary ors
+into new marked ancillas, `orChain_sem`).
 Proofs: `QV/Proofs/CompilerSem.lean` (`exprSem` / `argsSem` / `xorSem` by mutual structural
 recursion, `compile_single_sem`). -/
 
-/- PORT-PENDING theorem C02_fragment_partial (needs QV.Proofs.CompilerSem; text unchanged)
 /-- **C02 on the tree-like single-definition fragment**, final uncomputation off (`unc = false`) or
 on: every successful run of the compiler model – for every admissible sequence of ancilla choices –
 is `Correct`: on every classical input the qubit mapped to the return name ends with the value of
@@ -303,9 +308,7 @@ theorem C02_fragment_partial (inputs : List String) (defs : List (String × BExp
     refine ⟨q, hq, ?_⟩
     rw [hv]
     simp [evalDefs, envOf]
-PORT-PENDING end -/
 
-/- PORT-PENDING theorem C02_fragment_expr (needs QV.Proofs.CompilerSem; text unchanged)
 /-- Stage A/B in isolation: what `compile_expr` leaves on the qubits, for every expression of the
 fragment compiled without a destination from a state satisfying the invariant `Pre` (argument
 qubits hold the arguments, free set empty, …): the returned qubit holds `⟦e⟧`, every qubit that
@@ -321,7 +324,6 @@ theorem C02_fragment_expr (inputs : List String) (ρ : Env) (σ0 : FState) (r : 
     (by intro p hp'; rw [hcache] at hp'; cases hp') (by intro d hd; cases hd) hsym
     (by intro hs; rw [hns] at hs; cases hs)
   exact ⟨(hv rfl).2, fun q hq => sem.frame q hq (fun hd => by cases hd)⟩
-PORT-PENDING end -/
 
 /-- an instance of the class (n-ary `Or`, nested `And` / `Xor` / `Not`, repeated variables) -/
 example : inFragment ["a", "b", "c"]
